@@ -758,7 +758,7 @@ func (c *Client) Sync() am.Time {
 		verifPoint(c, "cli:syncdropped")
 	}
 
-	return c.NetMach.machTime
+	return c.NetMach.Time(nil)
 }
 
 // Args returns a list of registered typed args for a given machine.
